@@ -276,6 +276,7 @@ func (m *mu) lock(ctx context.Context) error {
 	case <-ctx.Done():
 		return fmt.Errorf("failed to acquire lock: %w", ctx.Err())
 	case m.ch <- struct{}{}:
+		vhook(1, nil, m, 0, 0)
 		// To make sure the connection is certainly alive.
 		// As it's possible the send on m.ch was selected
 		// over the receive on closed.
@@ -286,7 +287,6 @@ func (m *mu) lock(ctx context.Context) error {
 			return net.ErrClosed
 		default:
 		}
-		vhook(1, nil, m, 0, 0)
 		return nil
 	}
 }
